@@ -405,3 +405,11 @@ Example concurrent_example :
   let s := run (init_state g 1) [GBegin; GMark; SPut 5 [2]; SPut 6 [5]; GFinalize; SPut 7 []; GSwap; SCommit 6] in
   (st_root s, map fst (st_store s), st_phase s) = (6, [6; 5; 1; 2], Idle).
 Proof. vm_compute. reflexivity. Qed.
+
+(* the marked set is closed under the references of the graph it was computed on *)
+Lemma mark_closed_refs : forall g start R,
+  mark g start = Some R -> forall x y, In x R -> In y (refs g x) -> In y R.
+Proof.
+  intros g start R H. unfold mark in H. apply mark_loop_closed in H; [|intros ? ? []].
+  exact (proj2 H).
+Qed.
